@@ -7,6 +7,8 @@
 package c10
 
 import (
+	"bytes"
+	"context"
 	"fmt"
 	"math/rand"
 	"runtime"
@@ -17,6 +19,7 @@ import (
 	"time"
 
 	"git.sr.ht/~rockorager/vaxis"
+	"git.sr.ht/~rockorager/vaxis/widgets/spinner"
 
 	"verif/harness/fakecon"
 	"verif/harness/responder"
@@ -44,7 +47,34 @@ type Scn struct {
 	// Resizes > 0 (kind "resize-handoff"): the terminal changes size that many times; each further change
 	// happens right after a Render has read the previous size (a schedule of specs/conc/ResizeFlag.tla)
 	Resizes int `json:",omitempty"`
-	Seed    int64
+	// kind "queries": QCallers goroutines issue terminal queries while the main goroutine renders and
+	// (Cycles times) suspends and resumes; QReply says when the terminal's replies arrive:
+	//   ontime       within the write of the query
+	//   late         1-7 ms after it
+	//   never        not at all
+	//   held         while the application is shutting its input down (inside the Suspend of the end phase)
+	//   held-resume  after the Resume of the end phase has returned
+	QCallers []QCaller `json:",omitempty"`
+	QReply   string    `json:",omitempty"`
+	Cycles   int       `json:",omitempty"`
+	// kind "spinner": run | stop-posted | stopped | helpers | suspend
+	Spin string `json:",omitempty"`
+	Seed int64
+}
+
+// QCaller is one goroutine that makes N rounds of the calls named by Kinds:
+// color:<index> | fg | bg | cpr | clip
+type QCaller struct {
+	Kinds []string
+	N     int
+}
+
+// QObs is what the driver saw of one query caller.
+type QObs struct {
+	Kind   string `json:"kind"`   // the caller's kinds (colour indexes left out)
+	Reply  string `json:"reply"`  // the scenario's QReply
+	Before bool   `json:"before"` // all its calls had returned before the application closed Vaxis (bound: 4 s)
+	After  bool   `json:"after"`  // ... 1.5 s after Close had returned
 }
 
 type Result struct {
@@ -59,6 +89,12 @@ type Result struct {
 	Race     string   `json:"race"`
 	RWant    []int    `json:"rwant"` // resize hand-off: the terminal's final size ...
 	RGot     []int    `json:"rgot"`  // ... and the size the library works with after the renders that follow
+	Queries  []QObs   `json:"queries"`
+}
+
+func NewResult() *Result {
+	return &Result{Returned: true, Leaked: []string{}, Stuck: []string{}, Orders: [][]int{}, BSent: []int{}, BGot: []int{},
+		RWant: []int{}, RGot: []int{}, Queries: []QObs{}}
 }
 
 type pev struct{ P, N int }
@@ -160,10 +196,314 @@ func resizeHandoff(sc *Scn, res *Result) *Result {
 	return res
 }
 
+// waitLeaks fills res.Leaked with the library's goroutines that are still there (up to 1 s after Close).
+func waitLeaks(res *Result) {
+	if !res.Returned {
+		return
+	}
+	deadline := time.Now().Add(time.Second)
+	for {
+		res.Leaked = libGoroutines()
+		if len(res.Leaked) == 0 || time.Now().After(deadline) {
+			return
+		}
+		time.Sleep(5 * time.Millisecond)
+	}
+}
+
+func isQueryReply(b []byte) bool {
+	return bytes.HasPrefix(b, []byte("\x1b]4;")) || bytes.HasPrefix(b, []byte("\x1b]10;")) || bytes.HasPrefix(b, []byte("\x1b]11;")) ||
+		(bytes.HasPrefix(b, []byte("\x1b[")) && bytes.HasSuffix(b, []byte("R")))
+}
+
+// queryRun: several goroutines issue terminal queries of every kind while the main goroutine draws,
+// renders and (Cycles times) suspends and resumes; the terminal answers on time, late, while the input is
+// being shut down, after the Resume, or never; then the application ends the session. Every call has to
+// come back: while Vaxis runs when the terminal answered, and in any case once Close has returned.
+func queryRun(sc *Scn, res *Result) *Result {
+	sess.ScrubEnv()
+	caps := responder.FromMask(sc.Mask|1<<10|1<<11|1<<12, false) // the terminal answers OSC 4 / 10 / 11 queries
+	con := fakecon.New(20, 5)
+	var active, ending atomic.Bool
+	var nreply atomic.Int64
+	var hmu sync.Mutex
+	var held [][]byte
+	release := func() {
+		hmu.Lock()
+		h := held
+		held = nil
+		hmu.Unlock()
+		for _, b := range h {
+			con.Inject(b)
+		}
+	}
+	resp := responder.New(caps, 20, 5, func(b []byte) {
+		if !active.Load() || !isQueryReply(b) {
+			con.Inject(b)
+			return
+		}
+		n := nreply.Add(1)
+		switch sc.QReply {
+		case "late":
+			b := append([]byte(nil), b...)
+			time.AfterFunc(time.Duration(1+n%7)*time.Millisecond, func() { con.Inject(b) })
+		case "never":
+		case "held", "held-resume":
+			hmu.Lock()
+			held = append(held, append([]byte(nil), b...))
+			hmu.Unlock()
+		default:
+			con.Inject(b)
+		}
+	})
+	resp.Clipboard = "clip"
+	con.OnWrite = func(p []byte) {
+		if ending.Load() && sc.QReply == "held" && bytes.Contains(p, []byte("\x1b[c")) {
+			// the application has asked its input parser to stop and now provokes a last reply:
+			// the replies the terminal still owed arrive right before that one
+			release()
+		}
+		resp.OnWrite(p)
+	}
+	vx, err := vaxis.New(vaxis.Options{WithConsole: con, NoSignals: true, EventQueueSize: 1024})
+	if err != nil {
+		res.What = "start: " + err.Error()
+		return res
+	}
+	stopRead := make(chan struct{})
+	readerDone := make(chan struct{})
+	go func() {
+		defer close(readerDone)
+		for {
+			select {
+			case ev := <-vx.Events():
+				if fn, ok := ev.(vaxis.SyncFunc); ok {
+					fn()
+				}
+			case <-stopRead:
+				return
+			}
+		}
+	}()
+	active.Store(true)
+	done := make([]chan struct{}, len(sc.QCallers))
+	for ci, qc := range sc.QCallers {
+		done[ci] = make(chan struct{})
+		go func(ci int, qc QCaller) {
+			defer close(done[ci])
+			for n := 0; n < qc.N; n++ {
+				for _, k := range qc.Kinds {
+					switch {
+					case strings.HasPrefix(k, "color:"):
+						var idx int
+						fmt.Sscanf(k, "color:%d", &idx)
+						vx.QueryColor(vaxis.IndexColor(uint8(idx)))
+					case k == "fg":
+						vx.QueryForeground()
+					case k == "bg":
+						vx.QueryBackground()
+					case k == "cpr":
+						vx.CursorPosition()
+					case k == "clip":
+						ctx, cancel := context.WithTimeout(context.Background(), 30*time.Millisecond)
+						vx.ClipboardPop(ctx)
+						cancel()
+					}
+				}
+			}
+		}(ci, qc)
+	}
+	frame := func(f int) {
+		win := vx.Window()
+		win.Clear()
+		win.Print(vaxis.Segment{Text: fmt.Sprintf("frame %d", f)})
+		vx.ShowCursor(f%3, 0, vaxis.CursorBlock)
+		vx.Render()
+	}
+	for f := 0; f < sc.Render; f++ {
+		frame(f)
+		runtime.Gosched()
+	}
+	ok := true
+	for c := 0; c < sc.Cycles && ok; c++ {
+		ok = call("Suspend", func() { vx.Suspend() }, res) && call("Resume", func() { vx.Resume() }, res)
+		if ok {
+			frame(c)
+			frame(c + 1)
+		}
+	}
+	obs := make([]QObs, len(sc.QCallers))
+	for ci, qc := range sc.QCallers {
+		ks := make([]string, len(qc.Kinds))
+		for i, k := range qc.Kinds {
+			ks[i] = strings.SplitN(k, ":", 2)[0]
+		}
+		obs[ci] = QObs{Kind: strings.Join(ks, "+"), Reply: sc.QReply}
+	}
+	waitAll := func(d time.Duration, set func(o *QObs)) {
+		dl := time.NewTimer(d)
+		defer dl.Stop()
+		expired := false
+		for ci := range done {
+			if !expired {
+				select {
+				case <-done[ci]:
+					set(&obs[ci])
+					continue
+				case <-dl.C:
+					expired = true
+				}
+			}
+			select {
+			case <-done[ci]:
+				set(&obs[ci])
+			default:
+			}
+		}
+	}
+	switch sc.QReply {
+	case "never", "held", "held-resume":
+		// the end comes while the queries are outstanding: wait until the terminal has seen them
+		for dl := time.Now().Add(300 * time.Millisecond); time.Now().Before(dl); {
+			hmu.Lock()
+			n := len(held)
+			hmu.Unlock()
+			if int(nreply.Load()) >= len(sc.QCallers) || n >= len(sc.QCallers) {
+				break
+			}
+			time.Sleep(time.Millisecond)
+		}
+	default:
+		waitAll(4*time.Second, func(o *QObs) { o.Before = true })
+	}
+	ending.Store(true)
+	if ok {
+		switch sc.End {
+		case "suspend-close":
+			if call("Suspend", func() { vx.Suspend() }, res) {
+				call("Close after Suspend", vx.Close, res)
+			}
+		case "suspend-resume-close":
+			if call("Suspend", func() { vx.Suspend() }, res) && call("Resume", func() { vx.Resume() }, res) {
+				release() // held-resume: the replies arrive now
+				frame(0)
+				if sc.QReply == "held" || sc.QReply == "held-resume" {
+					waitAll(4*time.Second, func(o *QObs) { o.Before = true })
+				}
+				call("Close", vx.Close, res)
+			}
+		default:
+			call("Close", vx.Close, res)
+		}
+	}
+	if res.Returned {
+		waitAll(1500*time.Millisecond, func(o *QObs) { o.After = true })
+	}
+	res.Queries = obs
+	close(stopRead)
+	<-readerDone
+	waitLeaks(res)
+	return res
+}
+
+// spinnerRun: an application with a widgets/spinner model: started through the event loop, drawn on the
+// Redraw events it posts, stopped (or not) and closed; Start/Stop/Toggle also from other goroutines.
+func spinnerRun(sc *Scn, res *Result) *Result {
+	sess.ScrubEnv()
+	caps := responder.FromMask(sc.Mask, false)
+	con := fakecon.New(20, 5)
+	resp := responder.New(caps, 20, 5, con.Inject)
+	con.OnWrite = resp.OnWrite
+	vx, err := vaxis.New(vaxis.Options{WithConsole: con, NoSignals: true, EventQueueSize: 1024})
+	if err != nil {
+		res.What = "start: " + err.Error()
+		return res
+	}
+	sp := spinner.New(vx, 2*time.Millisecond)
+	frames, syncs := 0, 0
+	// the application's event loop, on the main goroutine, until cond holds (at most 2 s)
+	pump := func(cond func() bool) {
+		t := time.After(2 * time.Second)
+		for !cond() {
+			select {
+			case ev := <-vx.Events():
+				switch ev := ev.(type) {
+				case vaxis.SyncFunc:
+					ev()
+					syncs++
+				case vaxis.Redraw:
+					frames++
+					sp.Draw(vx.Window())
+					vx.Render()
+				}
+			case <-t:
+				return
+			}
+		}
+	}
+	spin := func(n int) { f0 := frames; pump(func() bool { return frames >= f0+n }) }
+	sp.Start()
+	spin(3)
+	switch sc.Spin {
+	case "stop-posted":
+		sp.Stop() // the application leaves its loop right away: the queued stop is never run
+	case "stopped":
+		s0 := syncs
+		sp.Stop()
+		pump(func() bool { return syncs > s0 })
+	case "helpers":
+		var wg sync.WaitGroup
+		for h := 0; h < 3; h++ {
+			wg.Add(1)
+			go func(h int) {
+				defer wg.Done()
+				for i := 0; i < 20; i++ {
+					switch (h + i) % 3 {
+					case 0:
+						sp.Toggle()
+					case 1:
+						sp.Start()
+					case 2:
+						sp.Stop()
+					}
+					time.Sleep(200 * time.Microsecond)
+				}
+				sp.Start()
+			}(h)
+		}
+		hd := make(chan struct{})
+		go func() { wg.Wait(); close(hd) }()
+		pump(func() bool {
+			select {
+			case <-hd:
+				return true
+			default:
+				return false
+			}
+		})
+		spin(2)
+	case "suspend":
+		if call("Suspend", func() { vx.Suspend() }, res) && call("Resume", func() { vx.Resume() }, res) {
+			spin(2)
+		}
+	}
+	if res.Returned {
+		call("Close", vx.Close, res)
+	}
+	waitLeaks(res)
+	return res
+}
+
 func Execute(sc *Scn) *Result {
-	res := &Result{Returned: true, Leaked: []string{}, Stuck: []string{}, Orders: [][]int{}, BSent: []int{}, BGot: []int{}, RWant: []int{}, RGot: []int{}}
+	res := NewResult()
 	if sc.Resizes > 0 {
 		return resizeHandoff(sc, res)
+	}
+	if len(sc.QCallers) > 0 {
+		return queryRun(sc, res)
+	}
+	if sc.Spin != "" {
+		return spinnerRun(sc, res)
 	}
 	rng := rand.New(rand.NewSource(sc.Seed))
 	sess.ScrubEnv()
@@ -374,16 +714,7 @@ drain:
 			break drain
 		}
 	}
-	if res.Returned {
-		deadline := time.Now().Add(time.Second)
-		for {
-			res.Leaked = libGoroutines()
-			if len(res.Leaked) == 0 || time.Now().After(deadline) {
-				break
-			}
-			time.Sleep(5 * time.Millisecond)
-		}
-	}
+	waitLeaks(res)
 	for pi, p := range sc.Posters {
 		if p.Mode == "sync" || p.Mode == "resize" {
 			orders[pi] = append([]int{}, orders[pi]...)
@@ -419,8 +750,66 @@ func Gen(rng *rand.Rand) *Scn {
 	return sc
 }
 
+// GenQuery draws one "queries" scenario.
+func GenQuery(rng *rand.Rand) *Scn {
+	sc := &Scn{Kind: "queries", Mask: rng.Intn(1 << 15), Render: rng.Intn(6),
+		QReply: []string{"ontime", "ontime", "ontime", "late", "never", "held", "held-resume"}[rng.Intn(7)],
+		End:    []string{"close", "suspend-close", "suspend-resume-close"}[rng.Intn(3)], Seed: rng.Int63()}
+	n := 1
+	switch sc.QReply {
+	case "ontime":
+		n = 1 + rng.Intn(40)
+		sc.Cycles = rng.Intn(4)
+	case "late":
+		n = 1 + rng.Intn(10)
+	case "held-resume":
+		sc.End = "suspend-resume-close"
+	}
+	for c := 1 + rng.Intn(4); c > 0; c-- {
+		qc := QCaller{N: n}
+		nk := 1
+		if n > 1 {
+			nk = 1 + rng.Intn(3) // a caller alternates between up to 3 kinds
+		}
+		for k := 0; k < nk; k++ {
+			kind := []string{"color", "color", "fg", "bg", "cpr", "clip"}[rng.Intn(6)]
+			if kind == "clip" && n == 1 {
+				kind = "bg" // the clipboard request ends with its context whatever the terminal does
+			}
+			if kind == "color" {
+				kind = fmt.Sprintf("color:%d", rng.Intn(256))
+			}
+			qc.Kinds = append(qc.Kinds, kind)
+		}
+		sc.QCallers = append(sc.QCallers, qc)
+	}
+	return sc
+}
+
+// GenSpin draws one "spinner" scenario.
+func GenSpin(rng *rand.Rand) *Scn {
+	return &Scn{Kind: "spinner", Mask: rng.Intn(1 << 15), Spin: []string{"run", "stop-posted", "stopped", "helpers", "suspend"}[rng.Intn(5)], Seed: rng.Int63()}
+}
+
 func Fixed() []*Scn {
+	all := []QCaller{{[]string{"color:1"}, 1}, {[]string{"fg"}, 1}, {[]string{"bg"}, 1}, {[]string{"cpr"}, 1}}
 	return []*Scn{
+		// terminal queries from several goroutines (specs/conc/Query.tla)
+		{Kind: "queries", QReply: "never", QCallers: all, Render: 2, End: "close", Seed: 21},
+		{Kind: "queries", QReply: "never", QCallers: all[2:3], End: "suspend-close", Seed: 22},
+		{Kind: "queries", QReply: "held", QCallers: all[2:3], Render: 1, End: "suspend-resume-close", Seed: 23},
+		{Kind: "queries", QReply: "held", QCallers: all[:2], End: "close", Seed: 24},
+		{Kind: "queries", QReply: "held-resume", QCallers: all[1:], End: "suspend-resume-close", Seed: 25},
+		{Kind: "queries", QReply: "ontime", QCallers: []QCaller{{[]string{"color:10"}, 150}, {[]string{"color:11"}, 150}, {[]string{"color:12", "bg"}, 80}, {[]string{"color:13", "fg", "cpr"}, 50}}, Render: 5, End: "close", Seed: 26},
+		{Kind: "queries", QReply: "late", QCallers: []QCaller{{[]string{"color:10"}, 8}, {[]string{"color:11", "bg"}, 5}, {[]string{"fg", "cpr"}, 5}}, Render: 3, End: "suspend-resume-close", Seed: 27},
+		{Kind: "queries", QReply: "ontime", Cycles: 3, QCallers: []QCaller{{[]string{"cpr"}, 60}, {[]string{"bg", "clip"}, 30}}, Render: 2, End: "close", Seed: 28},
+		{Kind: "queries", QReply: "ontime", Cycles: 3, QCallers: []QCaller{{[]string{"color:3", "fg"}, 40}}, End: "suspend-close", Seed: 29},
+		// widgets/spinner: its ticker goroutine is one of the library's
+		{Kind: "spinner", Spin: "run", Seed: 31},
+		{Kind: "spinner", Spin: "stop-posted", Seed: 32},
+		{Kind: "spinner", Spin: "stopped", Seed: 33},
+		{Kind: "spinner", Spin: "helpers", Seed: 34},
+		{Kind: "spinner", Spin: "suspend", Seed: 35},
 		// the resize hand-off (specs/conc/ResizeFlag.tla): 1 = a plain resize, 2.. = further size changes each landing inside a Render
 		{Kind: "resize-handoff", Resizes: 1, Seed: 41},
 		{Kind: "resize-handoff", Resizes: 2, Seed: 42},
